@@ -281,6 +281,13 @@ example : writeTsvSimple false "group" [(3, .text "a,b"), (-1, .int 5), (2, .flo
     "cluster_id,group\r\n-1,5\r\n2,0.25\r\n3,\"a,b\"\r\n".toList ∧
     readTsvSimple "cluster_id,group\r\n-1,5\r\n2,0.25\r\n3,\"a,b\"\r\n".toList =
       some ("group", [(-1, .int 5), (2, .float false 25 (-2)), (3, .text "a,b")]) := by decide
+-- blank lines (between two rows, at the end, LF or CRLF) are not rows: skipped; a line with one or three fields, or a
+-- blank FIRST line (no header), still makes the reader raise
+example : readTsvSimple "cluster_id\tgroup\r\n1\tgood\r\n\r\n2\tmua\n\n\r\n".toList =
+      some ("group", [(1, .text "good"), (2, .text "mua")]) ∧
+    readTsvSimple "cluster_id\tgroup\n1\tgood\n7\n".toList = none ∧
+    readTsvSimple "cluster_id\tgroup\n1\tgood\tx\n".toList = none ∧
+    readTsvSimple "\ncluster_id\tgroup\n1\tgood\n".toList = none := by decide +kernel
 example : loadMetadata (writeTsvSimple true "group" [(3, .text "good"), (-1, .text "mua"), (2, .text "")]) =
     some [("group", [(.int (-1), .text "mua"), (.int 3, .text "good")])] := by decide +kernel
 example : FloatLit "30000.0" ∧ FloatLit "1e-05" ∧ FloatLit "-2.5" :=
